@@ -1,8 +1,8 @@
-import DarkluaModel.Util.Sexp
-/-! Line-protocol handlers for property C07 (stub: nothing modelled yet). -/
+import DarkluaModel.C06.Driver
+/-! Line-protocol handlers for property C07: the same ops as `c06.*` (`rule`, `rules`, `all`,
+`census`, `wf`, `hyp`) — both properties are about the same rule models. -/
 namespace DarkluaModel.C07
 
-def handle (op : String) (_args : List String) : String :=
-  "unknown-op " ++ op
+def handle (op : String) (args : List String) : String := C06.handle op args
 
 end DarkluaModel.C07
